@@ -14,7 +14,7 @@ META = {
              "scheduler-controlled versions, exactly one thread runs at a time, and every put/get/task_done/join, thread "
              "start, write and flush is a scheduling point where the next thread is drawn among those whose pending "
              "operation is enabled; case = schedule (list of drawn choices) x queue capacity {1, 2, 16} x route {NumPy, "
-             "SEG-Y 3D, SEG-Y 2D} x 1..3 plane sets x layout {whole plane set, per block}; oracle: no deadlock (the "
+             "SEG-Y 3D, SEG-Y 2D, irregular SEG-Y} x 1..3 plane sets x layout {whole plane set, per block}; oracle: no deadlock (the "
              "enabled set is never empty before the call returns), bounded number of scheduling points, final bytes == "
              "those of an unscheduled run, write log = header first, then every block exactly once at contiguous "
              "increasing offsets by the writer thread, then footer/patches by the calling thread, and no thread has an "
@@ -42,7 +42,16 @@ def conversion(case, d):
     key = (case["route"], tuple(case["shape"]))
     path = os.path.join(d, f"in_{case['route']}_{'_'.join(map(str, case['shape']))}.sgy")
     if not os.path.exists(path):
-        if case["route"] == "2d":
+        if case["route"] == "irregular":
+            # a survey with holes (inferred geometry): every second trace of the second inline and the last trace missing
+            n_il, n_xl, ns = case["shape"]
+            data = gen.make_values((n_il, n_xl, ns), "gauss", 8)
+            keep = [g for g in range(n_il * n_xl) if not (g // n_xl == 1 and g % 2 == 1) and g != n_il * n_xl - 1]
+            cols = sgy.base_cols(len(keep), ns, 4000, 0)
+            cols[sgy.IL] = np.array([10 + 2 * (g // n_xl) for g in keep])
+            cols[sgy.XL] = np.array([20 + (g % n_xl) for g in keep])
+            sgy.write_segy(path, data.reshape(-1, ns)[keep], cols, 4000, fmt=5)
+        elif case["route"] == "2d":
             n, ns = case["shape"]
             data = gen.make_values((n, ns), "gauss", 6)
             sgy.write_segy(path, data, sgy.base_cols(n, ns, 4000, 0), 4000, fmt=5)
@@ -171,6 +180,7 @@ CONFIGS = {
              ([12, 3, 5], [4, (4, 4, 512)]),
              # one block per plane set (n_xl <= blockshape[1], n_samples <= blockshape[2]) in layouts other than 4x4
              ([17, 5, 9], [8, (8, 8, 64)]), ([9, 7, 60], [4, (4, 8, 256)]), ([33, 3, 12], [16, (16, 16, 8)])],
+    "irregular": [([9, 5, 9], [4, (4, 4, 512)]), ([17, 5, 9], [8, (8, 8, 64)]), ([6, 7, 30], [16, (4, 8, 64)])],
     "2d": [([9, 20], [4, (1, 4, 2048)]), ([5, 20], [4, (1, 16, 512)]), ([37, 600], [4, (1, 16, 512)]),
            ([11, 2100], [8, (1, 4, 1024)])],
 }
@@ -178,7 +188,7 @@ CONFIGS = {
 
 @st.composite
 def cases(draw):
-    route = draw(st.sampled_from(["numpy", "numpy", "segy", "2d"]))
+    route = draw(st.sampled_from(["numpy", "numpy", "segy", "2d", "irregular"]))
     shape, setting = draw(st.sampled_from(CONFIGS[route]))
     return {"route": route, "shape": list(shape), "setting": [setting[0], list(setting[1])],
             "cap": draw(st.sampled_from([1, 2, 16])), "mode": draw(st.sampled_from(["heuristic", "thorough", "strip"])),
